@@ -8,7 +8,7 @@ use serde_json::{json, Value as J};
 
 pub static PROP: Prop = Prop {
     id: "C04",
-    rule: "cases: (a) exhaustive table, in the dev AND the release build: every arithmetic/bit operator (+ - * / % | ^ & << >>) and its compound-assignment form (x = a; x op= b; x) x every ordered pair of a 44-value edge palette (0, -0, +-1, +-Decimal::MAX, MAX-1, MAX/2+-1, 10^-28, 28-place fractions, i64::MIN/MAX, +-2^63, 2^63+-1, 2^64, shift counts -1, 0, 1, 62, 63, 64, 65, 2^31, non-integral and out-of-range bit operands, None, bool, string, list), postfix ++/--, prefix -, and min/max/sum/mul over 0-3 palette arguments; (b) generated trees of depth <= 3 whose leaves come from the edge palette 2/3 of the time, same cases in both builds (paired seeds). Oracle: checked reference arithmetic on exact big integers: division/remainder by zero, |exact result| >= 2^96 - 1/2, shift count outside 0..=63, non-integral or non-i64 bit operand, min()/max() without arguments and every type mismatch must be Err; otherwise the exact value; never a panic. Non-trivial: the reference outcome is a numeric fault, or a value computed from at least one edge literal; distinct by (operator/leaf skeleton, fault kind, build profile).",
+    rule: "cases: (a) exhaustive table, in the dev AND the release build: every arithmetic/bit operator (+ - * / % | ^ & << >>) and its compound-assignment form (x = a; x op= b; x) x every ordered pair of a 46-value edge palette (0, -0, +-1, +-Decimal::MAX, MAX-1, MAX/2+-1, 10^-28, 28-place fractions, i64::MIN/MAX, +-2^63, 2^63+-1, 2^64, shift counts -1, 0, 1, 62, 63, 64, 65, 2^31, non-integral and out-of-range bit operands, None, bool, string, list), postfix ++/--, prefix -, and min/max/sum/mul over 0-3 palette arguments; (b) generated trees of depth <= 3 whose leaves come from the edge palette 2/3 of the time, same cases in both builds (paired seeds). Oracle: checked reference arithmetic on exact big integers: division/remainder by zero, |exact result| >= 2^96 - 1/2, shift count outside 0..=63, non-integral or non-i64 bit operand, min()/max() without arguments and every type mismatch must be Err; otherwise the exact value; never a panic. Non-trivial: the reference outcome is a numeric fault, or a value computed from at least one edge literal; distinct by (operator/leaf skeleton, fault kind, build profile).",
     assumptions: &[
         "a magnitude between MAX and MAX + 1/2 and in-range results that are not exactly representable may be rounded or rejected (not pinned); sum()/mul() without arguments may return the identity",
         "odd shards run the debug binary (overflow checks on), even shards the release binary, with the same case seeds",
@@ -76,7 +76,9 @@ fn case(src: &mut Src, st: &mut Stats, _env: &Env) -> CaseResult {
     check_value(&tree, &sc, st, |t, e| nontrivial(t, e))
 }
 
-pub const PALETTE: [&str; 44] = [
+pub const PALETTE: [&str; 46] = [
+    // strings that spell numbers are strings
+    "\"2\"", "\"0.5\"",
     "0", "(- 0)", "0.0", "1", "(- 1)", "2", "3", "79228162514264337593543950335", "(- 79228162514264337593543950335)", "79228162514264337593543950334",
     "39614081257132168796771975168", "39614081257132168796771975167", "0.0000000000000000000000000001", "(- 0.0000000000000000000000000001)", "7.9228162514264337593543950335",
     "0.9999999999999999999999999999", "1.0000000000000000000000000001", "9223372036854775807", "(- 9223372036854775808)", "9223372036854775808", "(- 9223372036854775809)",
